@@ -328,10 +328,15 @@ Inductive path :=
 | PScion (p : raw_path)
 | POneHop (o : onehop)
 | PEpic (e : epic)
-| PDecoded (d : dec_path).     (* only ever produced by callers, never by SCION.DecodeFromBytes *)
+| PDecoded (d : dec_path)      (* only ever produced by callers, never by SCION.DecodeFromBytes *)
+| POpaque (t : N) (b : bytes). (* path.rawPath: unknown path type [t] kept as bytes; only with
+                                  SCION.RecyclePaths (or non-strict decoding) *)
 
 Definition path_type (p : path) : N :=
-  match p with PEmpty => 0 | PScion _ => 1 | POneHop _ => 2 | PEpic _ => 3 | PDecoded _ => 1 end.
+  match p with PEmpty => 0 | PScion _ => 1 | POneHop _ => 2 | PEpic _ => 3 | PDecoded _ => 1
+               | POpaque t _ => t end.
+
+Definition is_opaque (p : path) : bool := match p with POpaque _ _ => true | _ => false end.
 
 (** Path.Len() *)
 Definition path_len (p : path) : nat :=
@@ -341,6 +346,7 @@ Definition path_len (p : path) : nat :=
   | POneHop _ => onehop_len
   | PEpic e => epic_meta_len + base_len (rp_base (ep_scion e))
   | PDecoded d => base_len (dp_base d)
+  | POpaque _ b => length b
   end.
 
 Definition path_encode (p : path) : res bytes :=
@@ -350,6 +356,7 @@ Definition path_encode (p : path) : res bytes :=
   | POneHop o => Ok (onehop_encode o)
   | PEpic e => epic_encode e
   | PDecoded d => dec_encode d
+  | POpaque _ b => Ok b
   end.
 
 (** path.NewPath(pathType) with strict decoding (the default), then Path.DecodeFromBytes.
@@ -362,6 +369,11 @@ Definition path_decode (pt : N) (data : bytes) : res (path * bytes) :=
   | 3 => '(e, r) <- epic_decode data ;; Ok (PEpic e, r)
   | _ => Err
   end.
+
+(** SCION.getPath on a layer with RecyclePaths(): pooled objects for the four registered types
+    (same decoders), the opaque raw path for every other type *)
+Definition path_decode_r (pt : N) (data : bytes) : res (path * bytes) :=
+  if pt <=? 3 then path_decode pt data else Ok (POpaque pt data, []).
 
 Definition path_canon (p : path) : path :=
   match p with
@@ -377,6 +389,7 @@ Definition wf_path (p : path) : Prop :=
   | POneHop o => wf_onehop o
   | PEpic e => wf_epic e
   | PDecoded d => wf_dec d
+  | POpaque t b => 3 < t /\ t < 256 /\ wf_bytes b
   end.
 Definition wf_pathb (p : path) : bool :=
   match p with
@@ -385,6 +398,7 @@ Definition wf_pathb (p : path) : bool :=
   | POneHop o => wf_onehopb o
   | PEpic e => wf_epicb e
   | PDecoded d => wf_decb d
+  | POpaque t b => (3 <? t) && (t <? 256) && wf_bytesb b
   end.
 
 Definition mask_path (pt : N) (bs : bytes) : bytes :=
@@ -402,6 +416,7 @@ Definition path_eqb (a b : path) : bool :=
   | POneHop x, POneHop y => onehop_eqb x y
   | PEpic x, PEpic y => epic_eqb x y
   | PDecoded x, PDecoded y => dec_eqb x y
+  | POpaque t x, POpaque u y => (t =? u) && bytes_eqb x y
   | _, _ => false
   end.
 
